@@ -85,6 +85,7 @@ def enc_cells(a):
     raise ValueError(f"enc_cells: dtype {a.dtype}")
 
 def encode(x):
+    if type(x).__name__ == "Passthrough" and hasattr(x, "j"): return x.j
     if x is None or isinstance(x, (bool, str)): return x
     if isinstance(x, np.bool_): return bool(x)
     if isinstance(x, (int, np.integer)): return int(x)
